@@ -9,7 +9,7 @@ import (
 	"verif/vkit"
 )
 
-const rule = "rapid draws a history of 1-40 (in 1 of 5 cases preceded by a crowd of 9-40 registrations on one type) Subscribe/SubscribeContext/Unsubscribe/Clear/ClearAll/Publish/PublishContext/HasHandlers/HandlerCount calls over 3-6 of 42 event types (biased to types sharing a routing shard and to two types with the same String()), in a quarter of the cases with one Once()/Async()/Sequential() option value reused for every subscription, with up to 3 nested scripts run from inside synchronous handlers; oracle = independent registry model in lock-step (sync trace exact, async multiset, Unsubscribe result, counts of all 42 types after every step). Non-trivial = a publish reached >=1 handler AND (two types of one shard were registered at once OR a nested operation ran OR a removal preceded a later publish of that type); distinct = hash of the case JSON."
+const rule = "rapid draws a history of 1-40 (in 1 of 5 cases preceded by a crowd of 9-40 registrations on one type) Subscribe/SubscribeContext/Unsubscribe/Clear/ClearAll/Publish/PublishContext/HasHandlers/HandlerCount calls over 3-6 of 43 event types (biased to types sharing a routing shard, to two types with the same String() and to a type that names itself from its value), in a quarter of the cases with one Once()/Async()/Sequential() option value reused for every subscription, with up to 3 nested scripts run from inside synchronous handlers; oracle = independent registry model in lock-step (sync trace exact, async multiset, Unsubscribe result, counts of all 43 types after every step). Non-trivial = a publish reached >=1 handler AND (two types of one shard were registered at once OR a nested operation ran OR a removal preceded a later publish of that type); distinct = hash of the case JSON."
 
 var coll = vkit.NewCollector("C01", "TestHistory", rule)
 
